@@ -1,14 +1,60 @@
 import Driver.Proto
 import IpfixModel.Model.Collector
 import IpfixModel.Spec.C15
+import IpfixModel.Model.RecordBuf
 namespace Driver
 open Ipfix
 
 def recordsToken (recs : List (List Value)) : String := recordsTok recs
 
+/-- the harness' `parseIE` (codec.go) reads the fields of an IE token into the Go field types -/
+def ieTokenInRange (tok : String) : Bool :=
+  match tok.splitOn ":" with
+  | [ent, id, ty, len, _] =>
+    match ent.toNat?, id.toNat?, ty.toNat?, len.toNat? with
+    | some ent, some id, some ty, some len => ent < 4294967296 && id < 65536 && ty < 256 && len < 65536
+    | _, _, _, _ => false
+  | _ => false
+
+/-- the harness' `mkElem` (codec.go): which value tokens the typed constructor of the element's
+    type takes (the kind of the token must fit, numbers must fit the Go type); for the types
+    without a typed constructor any token is carried -/
+def mkElemAccepts (ie : IE) (v : Value) : Bool :=
+  match ie.ty, v with
+  | .unsigned8, .num n | .signed8, .num n => n < 256
+  | .unsigned16, .num n | .signed16, .num n => n < 65536
+  | .unsigned32, .num n | .signed32, .num n | .float32, .num n | .dateTimeSeconds, .num n => n < 4294967296
+  | .unsigned64, .num n | .signed64, .num n | .float64, .num n | .dateTimeMilliseconds, .num n =>
+      n < 18446744073709551616
+  | .boolean, .bool _ => true
+  | .macAddress, .bytes _ | .string, .bytes _ | .ipv4Address, .bytes _ | .ipv6Address, .bytes _
+  | .octetArray, .bytes _ => true
+  | .dateTimeMicroseconds, v | .dateTimeNanoseconds, v | .basicList, v | .subTemplateList, v
+  | .subTemplateMultiList, v | .invalid, v =>
+      match v with
+      | .num n => n < 18446744073709551616
+      | _ => true
+  | _, _ => false
+
+/-- elems token of `ie recbuf`: ie=value,ie=value ("-" = empty), as `parseElems` of the harness
+    (eng_bld.go) - `none` where the harness refuses the token -/
+def parseElemsIE (tok : String) : Option (List Elem) :=
+  if tok == "-" then some []
+  else (tok.splitOn ",").mapM fun p =>
+    match p.splitOn "=" with
+    | [i, v] => do
+      let ie ← parseIE i
+      let v ← parseValue v
+      if ieTokenInRange i && mkElemAccepts ie v then pure (ie, v) else none
+    | _ => none
+
 /-- engine "ie" (C15): see harness/cmd/harness/eng_ie.go for the protocol -/
 def engIE (a : List String) : String :=
   match a with
+  | ["recbuf", elems] =>
+    match parseElemsIE elems with
+    | some es => s!"buf {recordLength es} {hexOrDash (recordBuf es)}"
+    | none => "bad-op"
   | ["enc", ietok, vtok] =>
     match parseIE ietok, parseValue vtok with
     | some ie, some v =>
